@@ -118,7 +118,6 @@ Section BuildProofs.
   Notation ev_xc := (ev_xc pmatch to_upper to_lower parse_time).
   Notation ev_body := (ev_body pmatch to_upper to_lower parse_time).
   Notation evaluable_cond := (evaluable_cond pmatch to_upper to_lower parse_time).
-  Notation evaluable_cond_nolike := (evaluable_cond_nolike pmatch to_upper to_lower parse_time).
 
   Definition revent_ok (ev : revent) : Prop := kvs_ok (re_fields ev).
 
@@ -136,11 +135,11 @@ Section BuildProofs.
 
   (* a condition the server can evaluate builds a closure that computes its documented meaning,
      whatever closure the builder held before *)
-  Lemma b_cond_ok c : evaluable_cond c = true -> forall w, exists f,
-    b_cond w c = Some (Some f) /\ forall ev, revent_ok ev -> f (impl_event ev) = Ok (ref_cond c ev).
+  Lemma b_cond_ok c : evaluable_cond c = true -> forall sh w, exists f,
+    b_cond sh w c = Some (Some f) /\ forall ev, revent_ok ev -> f (impl_event ev) = Ok (ref_cond c ev).
   Proof.
-    unfold LqlEval.evaluable_cond, LqlEval.evaluable_cond_nolike, LqlEval.like_ok.
-    intros H w. apply andb_true_iff in H as [H HL]. apply negb_true_iff in HL.
+    unfold LqlEval.evaluable_cond, LqlEval.str_ok, LqlEval.like_ok.
+    intros H sh w.
     unfold LqlEval.b_cond, LqlEval.ref_cond.
     destruct (bytes_eqb (to_lower (first_param_name (c_ident c))) (B "ts")) eqn:Ets.
     - (* ts *)
@@ -158,6 +157,7 @@ Section BuildProofs.
       discriminate.
     - destruct (bytes_eqb (to_lower (first_param_name (c_ident c))) (B "msg")) eqn:Emsg.
       + (* msg *)
+        apply andb_true_iff in H as [H HL]. apply negb_true_iff in HL.
         apply andb_true_iff in H as [Hf Ht]. unfold funs_ok in Hf.
         unfold b_str, ref_str.
         destruct (str_fun (c_ident c)) as [lsf|] eqn:Ef; [|discriminate].
@@ -167,6 +167,7 @@ Section BuildProofs.
       + (* fields:<name> *)
         destruct (negb (prefixb (B "fields:") (to_lower (first_param_name (c_ident c)))) ||
                   Nat.ltb (List.length (to_lower (first_param_name (c_ident c)))) 8); [discriminate|].
+        apply andb_true_iff in H as [H HL]. apply negb_true_iff in HL.
         apply andb_true_iff in H as [Hf Ht]. unfold funs_ok in Hf.
         unfold b_str, ref_str.
         destruct (str_fun (c_ident c)) as [lsf|] eqn:Ef; [|discriminate].
@@ -175,14 +176,14 @@ Section BuildProofs.
         rewrite (fields_value_spec _ _ Hev). rewrite (str_fun_apply _ _ Ef). reflexivity.
   Qed.
 
-  Lemma b_expr_OrS w o r : b_expr w (OrS o r) =
-    match b_orc w o with None => None | Some w0 => match b_expr w0 r with None => None | Some w1 => Some (f_or w0 w1) end end.
+  Lemma b_expr_OrS sh w o r : b_expr sh w (OrS o r) =
+    match b_orc sh w o with None => None | Some w0 => match b_expr sh w0 r with None => None | Some w1 => Some (f_or w0 w1) end end.
   Proof. reflexivity. Qed.
-  Lemma b_orc_AndS w x r : b_orc w (AndS x r) =
-    match b_xc w x with None => None | Some w0 => match b_orc w0 r with None => None | Some w1 => Some (f_and w0 w1) end end.
+  Lemma b_orc_AndS sh w x r : b_orc sh w (AndS x r) =
+    match b_xc sh w x with None => None | Some w0 => match b_orc sh w0 r with None => None | Some w1 => Some (f_and w0 w1) end end.
   Proof. reflexivity. Qed.
-  Lemma b_xc_X w n b : b_xc w (X n b) =
-    match b_body w b with None => None | Some w1 => if n then Some (f_not w1) else Some w1 end.
+  Lemma b_xc_X sh w n b : b_xc sh w (X n b) =
+    match b_body sh w b with None => None | Some w1 => if n then Some (f_not w1) else Some w1 end.
   Proof. reflexivity. Qed.
   Lemma ev_expr_OrS o r ev : ev_expr (OrS o r) ev = ev_orc o ev || ev_expr r ev.
   Proof. reflexivity. Qed.
@@ -199,15 +200,15 @@ Section BuildProofs.
 
   Notation all_ev := (all_conds_expr evaluable_cond).
 
-  Lemma b_expr_ok :
+  Lemma b_expr_ok_v sh :
     (forall e, all_conds_expr evaluable_cond e = true -> forall w, exists f,
-        b_expr w e = Some (Some f) /\ forall ev, revent_ok ev -> f (impl_event ev) = Ok (ev_expr e ev)) /\
+        b_expr sh w e = Some (Some f) /\ forall ev, revent_ok ev -> f (impl_event ev) = Ok (ev_expr e ev)) /\
     (forall o, all_conds_orc evaluable_cond o = true -> forall w, exists f,
-        b_orc w o = Some (Some f) /\ forall ev, revent_ok ev -> f (impl_event ev) = Ok (ev_orc o ev)) /\
+        b_orc sh w o = Some (Some f) /\ forall ev, revent_ok ev -> f (impl_event ev) = Ok (ev_orc o ev)) /\
     (forall x, all_conds_xc evaluable_cond x = true -> forall w, exists f,
-        b_xc w x = Some (Some f) /\ forall ev, revent_ok ev -> f (impl_event ev) = Ok (ev_xc x ev)) /\
+        b_xc sh w x = Some (Some f) /\ forall ev, revent_ok ev -> f (impl_event ev) = Ok (ev_xc x ev)) /\
     (forall b, all_conds_body evaluable_cond b = true -> forall w, exists f,
-        b_body w b = Some (Some f) /\ forall ev, revent_ok ev -> f (impl_event ev) = Ok (ev_body b ev)).
+        b_body sh w b = Some (Some f) /\ forall ev, revent_ok ev -> f (impl_event ev) = Ok (ev_body b ev)).
   Proof.
     apply ast_mutind.
     - intros o IH H w. exact (IH H w).
@@ -226,82 +227,78 @@ Section BuildProofs.
       rewrite b_xc_X, E. destruct n.
       + eexists. split; [reflexivity|]. intros ev Hev. rewrite ev_xc_X. cbn [call]. rewrite (S ev Hev). reflexivity.
       + exists f. split; [reflexivity|]. exact S.
-    - intros c H w. cbn [all_conds_expr all_conds_orc all_conds_xc all_conds_body] in H. exact (b_cond_ok c H w).
+    - intros c H w. cbn [all_conds_expr all_conds_orc all_conds_xc all_conds_body] in H. exact (b_cond_ok c H sh w).
     - intros e IH H w. exact (IH H w).
   Qed.
 
-  (* ---- rejection: what the builder refuses, LIKE patterns aside ---- *)
-  Lemma b_cond_reject c w :
-    if evaluable_cond_nolike c then exists w', b_cond w c = Some w' else b_cond w c = None.
+
+  (* the same for the code's variant (the statement the other files use) *)
+  Lemma b_expr_ok :
+    (forall e, all_conds_expr evaluable_cond e = true -> forall w, exists f,
+        b_expr code_like_shadow w e = Some (Some f) /\ forall ev, revent_ok ev -> f (impl_event ev) = Ok (ev_expr e ev)) /\
+    (forall o, all_conds_orc evaluable_cond o = true -> forall w, exists f,
+        b_orc code_like_shadow w o = Some (Some f) /\ forall ev, revent_ok ev -> f (impl_event ev) = Ok (ev_orc o ev)) /\
+    (forall x, all_conds_xc evaluable_cond x = true -> forall w, exists f,
+        b_xc code_like_shadow w x = Some (Some f) /\ forall ev, revent_ok ev -> f (impl_event ev) = Ok (ev_xc x ev)) /\
+    (forall b, all_conds_body evaluable_cond b = true -> forall w, exists f,
+        b_body code_like_shadow w b = Some (Some f) /\ forall ev, revent_ok ev -> f (impl_event ev) = Ok (ev_body b ev)).
+  Proof. exact (b_expr_ok_v code_like_shadow). Qed.
+
+  (* ---- rejection (the code: the error of the LIKE probe is returned) ---- *)
+  Lemma b_cond_reject c w : evaluable_cond c = false -> b_cond false w c = None.
   Proof.
-    unfold LqlEval.evaluable_cond_nolike, LqlEval.b_cond.
+    unfold LqlEval.evaluable_cond, LqlEval.str_ok, LqlEval.like_ok, LqlEval.b_cond.
     destruct (bytes_eqb (to_lower (first_param_name (c_ident c))) (B "ts")).
     - unfold b_ts. destruct (c_ident c) as [op [|p ps]]; [|reflexivity].
       destruct (parse_time (c_val c)) as [tm|]; [|reflexivity].
       cbn [existsb].
-      destruct (bytes_eqb (c_op c) (B "<")); [eexists; reflexivity|].
-      destruct (bytes_eqb (c_op c) (B ">")); [eexists; reflexivity|].
-      destruct (bytes_eqb (c_op c) (B "<=")); [eexists; reflexivity|].
-      destruct (bytes_eqb (c_op c) (B ">=")); [eexists; reflexivity|].
+      destruct (bytes_eqb (c_op c) (B "<")); [discriminate|].
+      destruct (bytes_eqb (c_op c) (B ">")); [discriminate|].
+      destruct (bytes_eqb (c_op c) (B "<=")); [discriminate|].
+      destruct (bytes_eqb (c_op c) (B ">=")); [discriminate|].
       reflexivity.
     - destruct (bytes_eqb (to_lower (first_param_name (c_ident c))) (B "msg")).
       + unfold b_str, funs_ok. destruct (str_fun (c_ident c)); [|reflexivity].
         destruct (str_test pmatch false (to_upper (c_op c)) (c_op c) (c_val c)); [|reflexivity].
-        cbn [andb]. destruct (bytes_eqb (to_upper (c_op c)) (B "LIKE") && like_bad pmatch (c_val c)); eexists; reflexivity.
+        cbn [andb]. intros H. apply negb_false_iff in H. rewrite H. reflexivity.
       + destruct (negb (prefixb (B "fields:") (to_lower (first_param_name (c_ident c)))) ||
                   Nat.ltb (List.length (to_lower (first_param_name (c_ident c)))) 8); [reflexivity|].
         unfold b_str, funs_ok. destruct (str_fun (c_ident c)); [|reflexivity].
         destruct (str_test pmatch true (to_upper (c_op c)) (c_op c) (c_val c)); [|reflexivity].
-        cbn [andb]. destruct (bytes_eqb (to_upper (c_op c)) (B "LIKE") && like_bad pmatch (c_val c)); eexists; reflexivity.
+        cbn [andb]. intros H. apply negb_false_iff in H. rewrite H. reflexivity.
   Qed.
 
   Lemma b_expr_reject :
-    (forall e w, if all_conds_expr evaluable_cond_nolike e then exists w', b_expr w e = Some w' else b_expr w e = None) /\
-    (forall o w, if all_conds_orc evaluable_cond_nolike o then exists w', b_orc w o = Some w' else b_orc w o = None) /\
-    (forall x w, if all_conds_xc evaluable_cond_nolike x then exists w', b_xc w x = Some w' else b_xc w x = None) /\
-    (forall b w, if all_conds_body evaluable_cond_nolike b then exists w', b_body w b = Some w' else b_body w b = None).
+    (forall e w, all_conds_expr evaluable_cond e = false -> b_expr false w e = None) /\
+    (forall o w, all_conds_orc evaluable_cond o = false -> b_orc false w o = None) /\
+    (forall x w, all_conds_xc evaluable_cond x = false -> b_xc false w x = None) /\
+    (forall b w, all_conds_body evaluable_cond b = false -> b_body false w b = None).
   Proof.
     apply ast_mutind.
     - intros o IH w. exact (IH w).
-    - intros o IHo e IHe w. rewrite all_conds_OrS, b_expr_OrS. specialize (IHo w).
-      destruct (all_conds_orc evaluable_cond_nolike o); cbn [andb].
-      + destruct IHo as [w0 E0]. rewrite E0. specialize (IHe w0).
-        destruct (all_conds_expr evaluable_cond_nolike e).
-        * destruct IHe as [w1 E1]. rewrite E1. eexists; reflexivity.
-        * rewrite IHe. reflexivity.
-      + rewrite IHo. reflexivity.
+    - intros o IHo e IHe w. rewrite all_conds_OrS, b_expr_OrS. intros H. specialize (IHo w).
+      destruct (all_conds_orc evaluable_cond o); cbn [andb] in H.
+      + destruct (b_orc false w o) as [w0|]; [|reflexivity]. rewrite (IHe w0 H). reflexivity.
+      + rewrite (IHo eq_refl). reflexivity.
     - intros x IH w. exact (IH w).
-    - intros x IHx o IHo w. rewrite all_conds_AndS, b_orc_AndS. specialize (IHx w).
-      destruct (all_conds_xc evaluable_cond_nolike x); cbn [andb].
-      + destruct IHx as [w0 E0]. rewrite E0. specialize (IHo w0).
-        destruct (all_conds_orc evaluable_cond_nolike o).
-        * destruct IHo as [w1 E1]. rewrite E1. eexists; reflexivity.
-        * rewrite IHo. reflexivity.
-      + rewrite IHx. reflexivity.
-    - intros n b IH w. rewrite all_conds_X, b_xc_X. specialize (IH w).
-      destruct (all_conds_body evaluable_cond_nolike b).
-      + destruct IH as [w1 E1]. rewrite E1. destruct n; eexists; reflexivity.
-      + rewrite IH. reflexivity.
+    - intros x IHx o IHo w. rewrite all_conds_AndS, b_orc_AndS. intros H. specialize (IHx w).
+      destruct (all_conds_xc evaluable_cond x); cbn [andb] in H.
+      + destruct (b_xc false w x) as [w0|]; [|reflexivity]. rewrite (IHo w0 H). reflexivity.
+      + rewrite (IHx eq_refl). reflexivity.
+    - intros n b IH w. rewrite all_conds_X, b_xc_X. intros H. rewrite (IH w H). reflexivity.
     - intros c w. exact (b_cond_reject c w).
     - intros e IH w. exact (IH w).
   Qed.
 
-  (* evaluable = evaluable apart from LIKE patterns + well-formed LIKE patterns, condition by condition *)
-  Lemma evaluable_split :
-    (forall e, all_conds_expr (like_ok pmatch to_upper) e = true -> all_conds_expr evaluable_cond_nolike e = true -> all_conds_expr evaluable_cond e = true) /\
-    (forall o, all_conds_orc (like_ok pmatch to_upper) o = true -> all_conds_orc evaluable_cond_nolike o = true -> all_conds_orc evaluable_cond o = true) /\
-    (forall x, all_conds_xc (like_ok pmatch to_upper) x = true -> all_conds_xc evaluable_cond_nolike x = true -> all_conds_xc evaluable_cond x = true) /\
-    (forall b, all_conds_body (like_ok pmatch to_upper) b = true -> all_conds_body evaluable_cond_nolike b = true -> all_conds_body evaluable_cond b = true).
+  (* accepted = evaluable, for the code: the two directions together *)
+  Lemma build_where_decides e :
+    if all_conds_expr evaluable_cond e
+    then exists f, build_where pmatch to_upper to_lower parse_time (Some e) = Some (Some f) /\
+                   forall ev, revent_ok ev -> f (impl_event ev) = Ok (ev_expr e ev)
+    else build_where pmatch to_upper to_lower parse_time (Some e) = None.
   Proof.
-    apply ast_mutind.
-    - intros o IH. exact IH.
-    - intros o IHo r IHr. rewrite !all_conds_OrS. intros A B0.
-      apply andb_true_iff in A as [A1 A2]. apply andb_true_iff in B0 as [B1 B2]. rewrite IHo, IHr; auto.
-    - intros x IH. exact IH.
-    - intros x IHx r IHr. rewrite !all_conds_AndS. intros A B0.
-      apply andb_true_iff in A as [A1 A2]. apply andb_true_iff in B0 as [B1 B2]. rewrite IHx, IHr; auto.
-    - intros n b IH. exact IH.
-    - intros c. cbn [all_conds_body]. intros A B0. unfold LqlEval.evaluable_cond. rewrite A, B0. reflexivity.
-    - intros e0 IH. exact IH.
+    destruct (all_conds_expr evaluable_cond e) eqn:E.
+    - exact (proj1 b_expr_ok e E None).
+    - exact (proj1 b_expr_reject e None E).
   Qed.
 End BuildProofs.
